@@ -34,6 +34,10 @@ OUT_OF_SCOPE = {
     "BB": "regex wants a non-zero first digit, renderer zero-pads ids below 10", "BBB": "same, ids below 100", "BBBB": "same, ids below 1000",
     "BBBBB": "same, ids below 10^4", "BBBBBB": "same, ids below 10^5", "BBBBBBB": "same, ids below 10^6",
 }
+V1_PART_FIELDS = {'year': 'year', 'month': 'month', 'month_short': 'month', 'pep440_tag': 'tag', 'tag': 'tag', 'yy': 'year', 'yyyy': 'year', 'quarter': 'quarter',
+                  'iso_week': 'iso_week', 'us_week': 'us_week', 'dom': 'dom', 'doy': 'doy', 'dom_short': 'dom', 'doy_short': 'doy', 'MAJOR': 'major', 'MINOR': 'minor',
+                  'MM': 'minor', 'MMM': 'minor', 'MMMM': 'minor', 'MMMMM': 'minor', 'PP': 'patch', 'PPP': 'patch', 'PPPP': 'patch', 'PPPPP': 'patch', 'PATCH': 'patch',
+                  'build_no': 'bid', 'bid': 'bid', 'BID': 'bid', 'BB': 'bid', 'BBB': 'bid', 'BBBB': 'bid', 'BBBBB': 'bid', 'BBBBBB': 'bid', 'BBBBBBB': 'bid'}
 LEGACY_TAGS = ["alpha", "beta", "dev", "rc", "post", "final"]
 
 
@@ -312,6 +316,34 @@ def run(ctx) -> None:
         ctx.check("R1", f is not None and f in read, f"legacy part {{{part}}} -> field '{f}' which the parser reads", f"v1: part '{part}' is not mapped to a field that is read back",
                   f"field={f}, read={sorted(x for x in read if x)}", loc="src/bumpver/v1patterns.py")
 
+    # siblings of the named parts in the same tables (padded widths, *_short forms): three table rules that hold for every part
+    # (a) reader field of each part as on the pinned tree (a part may be added; none of these may be read into another field)
+    for part, want_f in sorted(V1_PART_FIELDS.items()):
+        ctx.check("R1", pfields.get(part) == want_f, f"legacy part {{{part}}} is read into field '{want_f}'", f"v1patterns.PATTERN_PART_FIELDS['{part}']: the part is read into another field",
+                  f"'{part}' -> {pfields.get(part)!r}, pinned: {want_f!r}: what was rendered from {want_f} is read back as {pfields.get(part)}", loc="src/bumpver/v1patterns.py",
+                  witness={"part": part})
+    # (b) a padded-width part (one letter k times) recognises at least k digits
+    n_pad = 0
+    for part in sorted(pats):
+        if len(part) >= 2 and len(set(part)) == 1 and part.isalpha():
+            n_pad += 1
+            shortest = rl.shortest_length(rl.from_regex(pats[part]))
+            ctx.check("R1", shortest == len(part), f"legacy part {{{part}}}: the shortest recognised text has {len(part)} digits", f"v1patterns.PART_PATTERNS['{part}']: padded width disagrees with the part's name",
+                      f"`{pats[part]}` recognises texts of length >= {shortest}, the part is rendered zero-padded to {len(part)}: a rendered value of exactly {len(part)} digits "
+                      f"{'is not read back' if shortest is None or shortest > len(part) else 'is read back by a narrower sibling pattern too'}", loc="src/bumpver/v1patterns.py", witness={"part": part})
+    ctx.floor("R1", "padded-width legacy parts", n_pad, 14)
+    # (c) a part rendered from a single field is read back into that same field
+    for part, tmpl in sorted(full.items()):
+        try:
+            segs = formats.parse_format(tmpl)
+        except Exception:
+            continue
+        flds = [f_ for _l, f_, _s in segs if f_ is not None]
+        if len(flds) == 1 and not any(l_ for l_, _f, _s in segs) and part in pfields and flds[0] in set(pfields.values()):
+            ctx.check("R1", flds[0] == pfields[part], f"legacy part {{{part}}} renders field '{flds[0]}', the field it is read into",
+                      f"v1patterns.FULL_PART_FORMATS['{part}']: the part renders another field than it is read into",
+                      f"renders {tmpl!r}, read into '{pfields[part]}': e.g. {{dom_short}} prints the day of the year", loc="src/bumpver/v1patterns.py", witness={"part": part})
+
     # the pinned calendar is the parsed calendar, field by field (v1 _ver_to_cal_info is positional)
     inc1 = prog.function("v1version.incr")
     pin = shapes.pinned_calendar_ctor(prog, inc1, "V1CalendarInfo")
@@ -477,6 +509,7 @@ def run(ctx) -> None:
     ctx.floor("R3", "legacy placeholders (witness set)", len(witnesses), 43)
     sites = [("cli.incr_dispatch", "has_v1_part", True), ("cli._is_valid_version", "is_new_pattern", False),
              ("config._parse_config", "is_new_pattern", False)]
+    site_bf: T.Dict[str, BF] = {}
     for fq, var, legacy_when in sites:
         fn = prog.function(fq)
         ctx.visit(fq)
@@ -485,6 +518,7 @@ def run(ctx) -> None:
             d = _any_loop(fn, var)
         ctx.require(d is not None, f"{fq}: engine predicate `{var}` not a single assignment / any-loop")
         pat_var, evaluator, bf = _predicate(ctx, fn, d)
+        site_bf[fq] = bf
         leg = bf if legacy_when else ~bf
         wrong = [w for w in witnesses if evaluator(w) != legacy_when]
         ctx.check("R3", not wrong, f"{fq}: `{var}` sends every legacy placeholder ({len(witnesses)}) to the legacy engine",
@@ -492,6 +526,12 @@ def run(ctx) -> None:
         mono = all(leg.restrict(a, False).implies(leg.restrict(a, True)) for a in leg.atoms)
         ctx.check("R3", mono, f"{fq}: `{var}` is monotone in the pattern (a pattern containing a legacy placeholder stays legacy)",
                   f"{fq}: engine predicate is not monotone", f"{leg.to_dnf()}", loc=fn.loc(d))
+    # the gate (test / update) and the config loader decide "new-style pattern" by the same function of the same tests
+    a_, b_ = site_bf["cli._is_valid_version"], site_bf["config._parse_config"]
+    ctx.check("R3", a_.equiv(b_), "cli._is_valid_version and config._parse_config classify every pattern alike (same predicate)",
+              "cli._is_valid_version: a pattern is validated with another engine than the config loader uses",
+              f"gate: new-style iff {a_.to_dnf()}; config loader: new-style iff {b_.to_dnf()} - `test` accepts a pattern/version pair that `show` and `update` refuse (or the reverse)",
+              loc=prog.function("cli._is_valid_version").loc(), witness=a_.diff_witness(b_))
     # the predicate's outcome selects the engine
     disp = prog.function("cli.incr_dispatch")
     dcfg = cfgs.get(disp.fq)
